@@ -217,6 +217,7 @@ PROPS = {
         ],
         'level_note': "Trusted: pyvc, z3/cvc5, the library models listed in evidence. The error-detection clauses (single substitution, adjacent transposition other than 0/9) are lemmas over the Luhn spec the code is proved equal to, proved by induction over the digit count (base and step obligations in contracts/lemmas.py).",
         'assumptions': ["int(c) on a one-character ASCII digit string is the digit value; str(d) for 0<=d<=9 is chr(48+d)",
+                        "text with separators (any printable ASCII between the digits): the comprehension filter is modelled by an uninterpreted strictly increasing selection function (the digits of the text, in order); that it selects EVERY digit is the semantics of the comprehension, not re-proved; non-ASCII characters for which str.isdigit() is true but int() fails are outside the property (digit strings)",
                         "SIGMA (finite sum) is characterised by its unfolding equations; induction over the length is written out as base/step obligations in contracts/lemmas.py"],
     },
     'C16': {
